@@ -7,7 +7,10 @@
 //!   gate         directed: deferred enlargement behind another thread's iterator
 //!   nested       directed: one thread holds an iterator, looks items up, writes and opens more transactions while
 //!                the map crosses 90 % (KV!Begin under one's own iterator, KV!NoHolderParked / GateLive)
-//!   squeeze      probe (never a verdict): a batch below 10 % of the map opened by a thread that holds its own iterator on
+//!   bigbatch     directed: ONE batch that needs more than what is free in the map (KV!NoMapFull without SmallBatches)
+//!   reopen       directed: a db grown past one chunk is closed and reopened; the map comes back as it was persisted and the
+//!                first write - under the writer's own iterator - has the room it had before (KV!Crash, HeadroomKept)
+//!   squeeze      directed (KV!NoMapFull without SqueezedFits): a batch below 10 % of the map opened by a thread that holds its own iterator on
 //!                a map that is more than 90 % full (no enlargement can take place before it)
 //!   inflight     directed: a single-key read stopped in the middle of its value while a writer needs the
 //!                enlargement (KV!ReadBegin .. ReadEnd, KV!CountAgrees / NoRemapUnderTxn)
@@ -41,6 +44,8 @@ fn main() {
 		Some("nested") => nested(&args),
 		Some("inflight") => inflight(&args),
 		Some("squeeze") => squeeze(&args),
+		Some("bigbatch") => bigbatch(&args),
+		Some("reopen") => reopen(&args),
 		_ => {
 			eprintln!("kv replay|record|crash|race|gate|nested|inflight");
 			2
@@ -2589,4 +2594,124 @@ fn squeeze(args: &Args) -> i32 {
 	drop(held);
 	emit_and_exit(json!({"mode": args.req("mode"), "class": if r.is_ok() { "ok" } else { "failed" }, "error": r.err(), "pages_before": pages,
 		"map_before": map0, "map_at_commit": map1, "batch_bytes": bytes}))
+}
+
+/// raw bytes in Blob layout (values too long for Blob::read's fixed-size reads)
+fn blob_bytes(v: u64, len: usize) -> Vec<u8> {
+	let mut bytes = v.to_be_bytes().to_vec();
+	bytes.extend_from_slice(&(len as u64).to_be_bytes());
+	bytes.extend(fill(v, len));
+	bytes
+}
+
+/// `bigbatch --dir D --mode single|control --tenths N`
+/// KV counterexample of MC_KV_bigbatch: Begin, N x Put of one unit (a tenth of the map) in ONE batch on a fresh store.
+/// `control` writes the same volume in batches of 64 KiB (each far below 10 % of the map): the map is enlarged between them.
+fn bigbatch(args: &Args) -> i32 {
+	let dir = args.req("dir").to_string();
+	let single = args.req("mode") == "single";
+	let tenths = args.u64("tenths", 11) as usize;
+	let _ = std::fs::remove_dir_all(&dir);
+	let store = open_store(&dir).expect("open");
+	let cdir = std::fs::canonicalize(&dir).map(|p| p.to_string_lossy().to_string()).unwrap_or(dir.clone());
+	let data_file = format!("{}/multi_lmdb/data.mdb", cdir);
+	let map0 = map_region(&data_file).map(|m| m.1).unwrap_or(1 << 20) as usize;
+	let total = tenths * map0 / 10;
+	let piece = 64 * 1024;
+	let n = (total + piece - 1) / piece;
+	let mut written = 0usize;
+	let mut puts = 0usize;
+	let r = (|| -> Result<(), String> {
+		if single {
+			let mut b = store.batch().map_err(|e| format!("batch:{}", errs(e)))?;
+			for i in 0..n {
+				b.put(Some(b'P'), &kb(i as u64 + 1), &blob_bytes(i as u64 + 1, piece - 16)).map_err(|e| format!("put:{}", errs(e)))?;
+				written += piece;
+				puts += 1;
+			}
+			b.commit().map_err(|e| format!("commit:{}", errs(e)))
+		} else {
+			for i in 0..n {
+				let mut b = store.batch().map_err(|e| format!("batch:{}", errs(e)))?;
+				b.put(Some(b'P'), &kb(i as u64 + 1), &blob_bytes(i as u64 + 1, piece - 16)).map_err(|e| format!("put:{}", errs(e)))?;
+				b.commit().map_err(|e| format!("commit:{}", errs(e)))?;
+				written += piece;
+				puts += 1;
+			}
+			Ok(())
+		}
+	})();
+	let map1 = map_region(&data_file).map(|m| m.1);
+	let class = match &r {
+		Ok(()) => "ok",
+		Err(e) if e.contains("MAP_FULL") || e.contains("MapFull") => "mapfull",
+		Err(_) => "error",
+	};
+	emit_and_exit(json!({"mode": args.req("mode"), "class": class, "error": r.err(), "tenths_of_map": tenths, "batch_bytes": total,
+		"puts_done": puts, "bytes_written": written, "map_before": map0, "map_after": map1, "data_pages": data_pages(&dir)}))
+}
+
+/// `reopen --dir D [--step-bytes N]`
+/// Session 1 grows the db past one chunk (several enlargements), then - iterator of the same thread open - writes
+/// one record of N bytes; the store is closed and opened again (KV!Crash = restart) and session 2 does the same step
+/// first thing. The environment has to come back with the map size it had (HeadroomKept): the step, which had room
+/// before the restart and is far from the 90 % mark, must have it afterwards.
+fn reopen(args: &Args) -> i32 {
+	let dir = args.req("dir").to_string();
+	let step_bytes = args.u64("step-bytes", 160 * 1024) as usize;
+	let _ = std::fs::remove_dir_all(&dir);
+	let cdir0 = dir.clone();
+	let step = |store: &Store, key: u64| -> Result<(), String> {
+		let mut it = store.iter(Some(b'P'), deser_pair as DeserFn).map_err(|e| format!("iter:{}", errs(e)))?;
+		let _ = it.next();
+		let mut b = store.batch().map_err(|e| format!("batch:{}", errs(e)))?;
+		b.put(Some(b'Q'), &kb(key), &blob_bytes(key, step_bytes - 16)).map_err(|e| format!("put:{}", errs(e)))?;
+		b.commit().map_err(|e| format!("commit:{}", errs(e)))?;
+		drop(it);
+		Ok(())
+	};
+	let data_file = |d: &str| {
+		let c = std::fs::canonicalize(d).map(|p| p.to_string_lossy().to_string()).unwrap_or(d.to_string());
+		format!("{}/multi_lmdb/data.mdb", c)
+	};
+	// session 1
+	let store = open_store(&dir).expect("open");
+	let df = data_file(&cdir0);
+	let mut key = 1u64;
+	while data_pages(&dir) < 830 {
+		if let Err(e) = one_put(&store, key, 24 * 1024) {
+			emit_and_exit(json!({"class": if e.contains("MAP_FULL") { "mapfull" } else { "error" }, "phase": "grow", "error": e}));
+		}
+		key += 1;
+	}
+	let s1 = step(&store, 1);
+	// one more ordinary commit: whatever enlargement was pending is carried out and persisted with it
+	std::thread::sleep(Duration::from_millis(300));
+	let _ = one_put(&store, key, 100);
+	let map1 = map_region(&df).map(|m| m.1).unwrap_or(0);
+	let pages1 = data_pages(&dir);
+	let due1 = resize_due(&dir, &df);
+	drop(store);
+	if let Err(e) = s1 {
+		emit_and_exit(json!({"class": "not_exercised", "phase": "session1_step", "error": e, "map": map1, "data_pages": pages1}));
+	}
+	// session 2: the restarted process
+	let store = match open_store(&dir) {
+		Ok(s) => s,
+		Err(e) => emit_and_exit(json!({"class": "error", "phase": "reopen", "error": errs(e)})),
+	};
+	let map2 = map_region(&df).map(|m| m.1).unwrap_or(0);
+	let s2 = step(&store, 2);
+	let found = store.exists(Some(b'Q'), &kb(2)).unwrap_or(false);
+	let class = match &s2 {
+		Ok(()) if !found => "lost",
+		Ok(()) if map2 < map1 => "map_shrunk",
+		Ok(()) => "ok",
+		Err(e) if e.contains("MAP_FULL") || e.contains("MapFull") => "mapfull",
+		Err(_) => "error",
+	};
+	drop(store);
+	let _ = std::fs::remove_dir_all(&dir);
+	emit_and_exit(json!({"class": class, "error": s2.err(), "map_before_restart": map1, "map_after_restart": map2, "data_pages": pages1,
+		"resize_due_before_restart": due1, "step_bytes": step_bytes, "batches_session1": key}))
 }
